@@ -248,6 +248,23 @@ func runC15(cfg config) {
 		}
 		addRound("RLiteral", true, kfc, "literal "+lit+" -> toString -> literal "+prefix+s, ok && eq)
 	}
+	// number literal texts are decimal: leading zeros change nothing, other radixes and digit separators do not exist
+	for _, c := range []struct{ src, want string }{{"010", "10"}, {"007", "7"}, {"08", "8"}, {"09", "9"}, {"00", "0"}, {"0100 + 1", "101"}, {"0777", "777"}, {"010.50", "10.5"}, {"0.10", "0.1"},
+		{"'010'.toInteger()", "10"}, {"'08'.toInteger()", "8"}, {"'0777'.toDecimal()", "777.0"}, {"'abcdefghijkl'.substring(010)", "'kl'"}, {"2147483647", "2147483647"}, {"0000000001", "1"}} {
+		eq, ok := evalBool("(" + c.src + ") = (" + c.want + ")")
+		addRound("RLiteral", true, 0, "number text "+c.src+" reads "+c.want, ok && eq)
+	}
+	for _, src := range []string{"0x10", "0b11", "0o17", "1_000", "1e3", "0x1p4", "١٢"} {
+		_, err := fhirpath.Compile(src)
+		addRound("RLiteral", true, 0, "no such number literal: "+src, err != nil)
+		e2, err2 := fhirpath.Compile("'" + src + "'.toInteger()")
+		rejected := false
+		if err2 == nil {
+			out, err3 := verifhook.Evaluate(e2, input)
+			rejected = err3 != nil || len(out) == 0
+		}
+		addRound("RLiteral", true, 0, "no such number text: '"+src+"'.toInteger()", rejected)
+	}
 	// System value -> FHIR primitive -> System value
 	for _, lit := range []string{"2020", "2020-02", "2020-02-29"} {
 		d := system.MustParseDate(lit)
@@ -409,7 +426,7 @@ func runC15(cfg config) {
 		return s, ok
 	}
 	fracs := []string{"", ".5", ".25", ".250", ".1234", ".12345", ".123456"}
-	offs := []string{"Z", "+05:30", "-11:00", "+00:00"}
+	offs := []string{"Z", "+05:30", "-11:00", "+00:00", "-03:30", "-09:30", "-00:30", "+00:30", "+05:45", "+12:45", "-00:02", "+14:00", "-12:00"}
 	for _, s := range []string{"2020", "2020-02", "2020-02-29", "0001-01-01", "9999-12-31"} {
 		p, err := verifhook.ParseDate(s)
 		if err != nil {
@@ -433,7 +450,7 @@ func runC15(cfg config) {
 				if p, err := verifhook.ParseDateTime(s); err == nil {
 					s2 := verifhook.DateTimeToString(p)
 					p2, err2 := verifhook.ParseDateTime(s2)
-					addRound("RHelperParseFormat", true, kfc, "fhir.ParseDateTime "+s, err2 == nil && proto.Equal(p, p2))
+					addRound("RHelperParseFormat", true, kfc, "fhir.ParseDateTime "+s, err2 == nil && proto.Equal(p, p2) && (kfc != 0 || len(f) != 0 || o == "Z" || s2 == s))
 					if js, ok := jsonField(&opb.Observation{Effective: &opb.Observation_EffectiveX{Choice: &opb.Observation_EffectiveX_DateTime{DateTime: p}}}, "effectiveDateTime"); ok {
 						addRound("RHelperJson", true, kfc, "DateTimeToString vs JSON "+s, js == s2)
 					}
@@ -441,7 +458,7 @@ func runC15(cfg config) {
 				if p, err := verifhook.ParseInstant(s); err == nil {
 					s2 := verifhook.InstantToString(p)
 					p2, err2 := verifhook.ParseInstant(s2)
-					addRound("RHelperParseFormat", true, kfc, "fhir.ParseInstant "+s, err2 == nil && proto.Equal(p, p2))
+					addRound("RHelperParseFormat", true, kfc, "fhir.ParseInstant "+s, err2 == nil && proto.Equal(p, p2) && (kfc != 0 || len(f) != 0 || o == "Z" || s2 == s))
 					if js, ok := jsonField(&opb.Observation{Issued: p}, "issued"); ok {
 						addRound("RHelperJson", true, kfc, "InstantToString vs JSON "+s, js == s2)
 					}
